@@ -288,6 +288,38 @@ pub async fn block_current_thread(d: std::time::Duration) {
     tokio::time::sleep(d).await;
 }
 
+/// Called by the `nanosleep` seam (see `seams`): code running on a simulated thread has just asked the
+/// OS to sleep (`std::thread::sleep` in async code, a blocking back-off, …). The call returns at once
+/// in real time; in simulated time the thread is stuck for `ns` more nanoseconds from the moment it
+/// next gives up the CPU (what runs between the sleep and the next await is not delayed: a sound
+/// under-approximation of how long the thread is deaf). Returns false when no simulated thread is
+/// running (the caller then sleeps for real).
+pub fn note_blocking_sleep(ns: u64) -> bool {
+    let r = try_with(|s| {
+        let i = s.stack.last().copied()?;
+        let t0 = s.t0?;
+        let now = tokio::time::Instant::now().duration_since(t0).as_nanos() as u64;
+        let t = &mut s.threads[i];
+        t.blocked_until = t.blocked_until.max(now).saturating_add(ns);
+        *s.counters.entry("os_sleep_on_a_simulated_thread".into()).or_insert(0) += 1;
+        Some((t.blocked_until - now, s.root.clone()))
+    });
+    match r {
+        Some(Some((d, root))) => {
+            // look again at the instant the thread unblocks
+            tokio::spawn(async move {
+                tokio::time::sleep(std::time::Duration::from_nanos(d)).await;
+                let w = root.waker.lock().unwrap().clone();
+                if let Some(w) = w {
+                    w.wake();
+                }
+            });
+            true
+        }
+        _ => false,
+    }
+}
+
 /// Synchronous preemption point (see module docs).
 pub fn preempt(label: &'static str) {
     let n = match try_with(|s| {
